@@ -1,4 +1,4 @@
-\* (E) coverage run: the spawn configuration with 3 continues, -coverage 1 (every label must fire)
+\* (E) coverage run: the spawn configuration with 2 continues, -coverage 1 (every label must fire)
 SPECIFICATION SpecD
 CONSTANTS
   Threads = {1, 2, 3, 4}
@@ -7,7 +7,7 @@ CONSTANTS
   Iters <- MainJoins1
   L = 3
   UserBps = {1}
-  MaxCmd = 3
+  MaxCmd = 2
   Cmds = {"continue"}
   Sigs = {}
   Quiet = {}
